@@ -366,9 +366,14 @@ def c19(driver):
                 declined = {p['id'] for p in post['prs']
                             if p['state'] == 'DECLINED' and
                             before[p['id']]['state'] == 'OPEN'}
+                # its integration pull requests = the robot's open pull
+                # requests from a w/<version>/<its source> name, whether or
+                # not that branch still exists (the mock host keeps a pull
+                # request open when its branch is deleted)
                 expect = {p['id'] for p in pre['prs']
                           if p['author'] == ROBOT and p['state'] == 'OPEN'
-                          and p['src'] in mine}
+                          and wref_parts(p['src']) and
+                          wref_parts(p['src'])[1] == src}
                 if declined != expect:
                     out.append({'property': 'C19', 'msg':
                                 'declining pull request %d declined %s, its '
